@@ -3,6 +3,7 @@ import Zstd.Driver.Headers
 import Zstd.Driver.Window
 import Zstd.Driver.Spec
 import Zstd.Driver.Dec
+import Zstd.Driver.Blk
 import Zstd.Driver.Ring
 import Zstd.Driver.Enc
 import Zstd.Driver.Io
@@ -21,6 +22,7 @@ open Zstd Zstd.Driver
 
 structure St where
   dec : Dec.St := Dec.init
+  blk : Blk.St := Blk.init
   ring : Ring.St := Ring.init
   huf : Driver.Huf.Cache := none
   matcher : Zstd.Driver.Matcher.State := {}
@@ -40,6 +42,7 @@ def step (st : St) (line : String) : St × String :=
   | "dictbuilder" :: cmd :: args => (st, DictBuilder.handle cmd args)
   | "enc" :: cmd :: args => (st, Driver.Enc.handle cmd args)
   | "ring" :: args => let (r, o) := Ring.step st.ring args; ({ st with ring := r }, o)
+  | "blk" :: args => let (b2, o) := Blk.step st.blk args; ({ st with blk := b2 }, o)
   | "dec" :: args => let (s2, o) := Dec.step st.dec args; ({ st with dec := s2 }, o)
   | _ => (st, badOp)
 
